@@ -11,7 +11,9 @@ TOL = 1e-9
 def build_wf(n, links, rem, rev=False):
     sp = {"tasks": [{"name": F.tname(i), "work": float(rem[i])} for i in range(n)], "links": [list(l) for l in links]}
     if rev is True:
-        sp["hash"] = list(range(n))[::-1]  # the sets inside the PERT passes are then iterated in the opposite order
+        sp["hash"] = list(range(n))[::-1]
+    if rev == "order":
+        sp["order"] = list(range(n))[::-1]  # task_list not in precedence order  # the sets inside the PERT passes are then iterated in the opposite order
     m = S.build(sp)
     if rev == "samename":
         for x in m.tasks:  # different tasks may carry the same name (IDs stay distinct)
@@ -128,6 +130,32 @@ def mon_c12(ex, info, col):
     return out
 
 
+def work_after_backward(chunk):
+    """a backward run (with helper tasks for due times) must leave a workflow on which the next PERT update is right"""
+    col = engines.Collector()
+    for spec, due_flag in chunk:
+        m = S.build(spec)
+        names = [t.ID for t in m.tasks]
+        try:
+            m.project.backward_simulate(max_time=40, considering_due_time_of_tail_tasks=due_flag, absence_time_list=[])
+            m.project.workflow.initialize()
+        except Exception as e:
+            col.violation({"property": "C12", "sig": "C12:update-after-backward-run-raised:%s" % type(e).__name__, "kind": "afterback", "spec": spec, "due": due_flag, "detail": {"error": repr(e)}})
+            continue
+        n = len(m.tasks)
+        links = [tuple(l) for l in spec["links"]]
+        bad = compare(m.tasks, m.project.workflow, n, links, 0, "after-backward")
+        col.evaluations += 1
+        col.checks["c12.after-backward"] += 1
+        key = hash((repr(spec), due_flag))
+        col.states.add(key)
+        col.transitions.add(key)
+        col.nontrivial.add(key)
+        if bad:
+            col.violation({"property": "C12", "sig": sig_of(bad) + "@after-backward-run", "kind": "afterback", "spec": spec, "due": due_flag, "detail": {"mismatches": bad[:8]}})
+    return col
+
+
 def hist_items(tier):
     out = []
     if tier == "quick":
@@ -138,10 +166,13 @@ def hist_items(tier):
                     if n == 3 and links:
                         out.append((n, links, rem0, 2, True))
                         out.append((n, links, rem0, 1, "samename"))
+                        out.append((n, links, rem0, 2, "order"))
         for links in F.fs_dags(4):
             for rem0 in itertools.product((0, 1, 2), repeat=4):
                 out.append((4, links, rem0, 3 if sum(rem0) % 2 == 0 else 1, False))
                 out.append((4, links, rem0, 1, True))
+                if sum(rem0) % 3 == 0:
+                    out.append((4, links, rem0, 1, "order"))
     else:
         for n in (1, 2, 3, 4):
             for links in F.fs_dags(n):
@@ -174,6 +205,14 @@ def sim_items(tier):
 def run(tier, seed):
     hi = hist_items(tier)
     col = engines.fanout(hi, work_hist, seed=seed)
+    ab = []
+    for fl in F.flows(3, ("FS",), (1, 2)):
+        for due in ((3, 5, 2), (4, 4, 9)):
+            sp = F.with_teams(fl, "POOL2")
+            sp = dict(sp, tasks=[dict(t, due=due[i]) for i, t in enumerate(sp["tasks"])])
+            for flag in (False, True):
+                ab.append((sp, flag))
+    col.merge(engines.fanout(ab, work_after_backward, seed=seed))
     si = sim_items(tier)
     H, D = (4, 1) if tier == "quick" else (5, 2)
     col.merge(stepcheck.explore(si, [mon_c12], H, D, who_fn=lambda sp: stepcheck.default_who(sp, facilities=False), seed=seed))
@@ -193,4 +232,6 @@ def replay(v):
     if v.get("kind") == "hist":
         m, t, bad = apply_history(v["n"], [tuple(l) for l in v["links"]], tuple(v["rem0"]), tuple(tuple(o) for o in v["hist"]), v.get("rev"))
         return [{"sig": sig_of(bad), "detail": {"t": t, "mismatches": bad[:8]}}] if bad else []
+    if v.get("kind") == "afterback":
+        return work_after_backward([(v["spec"], v["due"])]).violations
     return stepcheck.replay(v, [mon_c12])
